@@ -52,8 +52,14 @@ fn inside(a: &B, b: &B) -> bool {
 	}
 }
 
+/// payload classes (checklist 3): 1 byte, duplicates below / above the writers' 1000-byte de-dup threshold, unique
 fn payload(c: &C) -> Vec<u8> {
-	format!("tile {},{},{}", c.0, c.1, c.2).into_bytes()
+	match (c.0 as u64 + 3 * c.1 as u64) % 5 {
+		0 => vec![b'x'],
+		1 => b"same payload".to_vec(),
+		2 => b"y".repeat(1500),
+		_ => format!("tile {},{},{}", c.0, c.1, c.2).into_bytes(),
+	}
 }
 
 
@@ -123,7 +129,32 @@ fn judge(out: &mut Out, ctx: &Ctx, kind: &str, origin: &str, rd: &dyn TilesReade
 				}
 			}
 		}
-		out.count_n("lookup_probes", probes);
+		// (4) the stream over every (small) advertised level box delivers exactly the stored tiles of the level,
+	//     all inside the box – and a second pass over the same reader gives the same answer (reuse)
+	for z in 0u8..32 {
+		let Some((x0, y0, x1, y1)) = got[z as usize] else { continue };
+		if (x1 - x0 + 1) as u64 * (y1 - y0 + 1) as u64 > 2500 {
+			continue;
+		}
+		let b = adv.get_level_bbox(z).clone();
+		let want_z: BTreeSet<C> = tiles.iter().filter(|c| c.2 == z).cloned().collect();
+		for pass in 0..2 {
+			match catch(|| ctx.rt.block_on(async { rd.get_bbox_tile_stream(b.clone()).await.collect().await })) {
+				Ok(v) => {
+					let sv: BTreeSet<C> = v.iter().map(|(c, _)| (c.x, c.y, c.z)).collect();
+					if (sv != want_z || sv.len() != v.len()) && e.is_none() {
+						e = Some(format!("stream over the advertised level-{z} box (pass {pass}) delivers {} tiles ({} distinct), {} are stored there", v.len(), sv.len(), want_z.len()));
+					}
+				}
+				Err(p) => {
+					if e.is_none() {
+						e = Some(format!("stream over the advertised level-{z} box panicked: {}", trunc(&p, 120)));
+					}
+				}
+			}
+		}
+	}
+	out.count_n("lookup_probes", probes);
 		out.oracle(e.is_none(), &format!("C03 lookups: {kind}: {}", e.clone().unwrap_or_default()), sig("lookups"), json!({"case": line}));
 }
 
@@ -145,6 +176,14 @@ fn container_case(out: &mut Out, ctx: &mut Ctx, kind: &str, tiles: &[C], generou
 	}
 	let ps = path.to_str().unwrap().to_string();
 	let line = format!("C03 cov {kind} {} {}", pyr_str(&src_cover), tiles_str(tiles));
+	// checklist 5: every fourth container is written onto an existing, different container of the same
+	// kind (directories excepted: they merge, see the known finding of C06)
+	if ctx.n % 4 == 0 && kind != "dir" {
+		let other: Vec<(TileCoord3, Blob)> = [(0u32, 0u32, 1u8), (1, 1, 1), (5, 6, 3), (200, 100, 9)].iter().map(|c| (TileCoord3::new(c.0, c.1, c.2).unwrap(), compress(Blob::from(b"previous".to_vec()), &comp).unwrap())).collect();
+		let mut prev = MemSource::new("c03prev", format, comp, other);
+		let _ = catch(|| ctx.rt.block_on(write_to_filename(&mut prev, &ps)));
+		out.count("written_onto_existing_container");
+	}
 	let r = catch(|| {
 		ctx.rt.block_on(async {
 			let mut s = src.clone();
@@ -234,6 +273,26 @@ fn shape_random(rng: &mut Rng, z: u8) -> Vec<C> {
 	}
 	set.into_iter().map(|(x, y)| (x as u32, y as u32, z)).collect()
 }
+/// cluster straddling one or two 256-block borders (versatiles blocks / the 256-grid of the writers)
+fn shape_block_border(rng: &mut Rng, z: u8) -> Vec<C> {
+	let nb = 1u64 << (z - 8); // blocks per axis
+	let bx = rng.range(1, nb - 1).min(nb - 1).max(1);
+	let by = rng.range(1, nb - 1).min(nb - 1).max(1);
+	let mut set = BTreeSet::new();
+	for (dx, dy) in [(-1i64, -1i64), (0, 0), (-1, 0), (0, -1), (255, 3), (256, 2), (-2, 255)] {
+		if rng.chance(2, 3) {
+			let (x, y) = ((bx * 256) as i64 + dx, (by * 256) as i64 + dy);
+			if x >= 0 && y >= 0 && (x as u64) < (1u64 << z) && (y as u64) < (1u64 << z) {
+				set.insert((x as u32, y as u32, z));
+			}
+		}
+	}
+	if set.is_empty() {
+		set.insert(((bx * 256) as u32, (by * 256 - 1) as u32, z));
+	}
+	set.into_iter().collect()
+}
+
 fn pick_level(rng: &mut Rng) -> u8 {
 	match rng.below(14) {
 		0 => 0,
@@ -267,6 +326,7 @@ fn gen_tileset(rng: &mut Rng) -> Vec<C> {
 				let m = ((1u64 << z) - 1) as u32;
 				tiles.push(*rng.pick(&[(0, 0, z), (m, m, z), (0, m, z), (m, 0, z), (m / 2, m / 2, z)]));
 			}
+			1 if z >= 9 => tiles.extend(shape_block_border(rng, z)),
 			1..=3 if z >= 3 => tiles.extend(shape_irregular(rng, z)),
 			_ => tiles.extend(shape_random(rng, z)),
 		}
@@ -538,6 +598,7 @@ pub fn run(args: &Args) {
 	quiet_panics();
 	let mut out = Out::new(&args.out);
 	out.rule = "containers: tile sets (single tiles, irregular clusters whose extreme rows avoid the first/middle/last column, random sparse clusters; levels 0..31 incl. border coordinates 0 and 2^z-1, contiguous levels and zoom gaps; exact or generous source pyramid) written with the real mbtiles/pmtiles/tar/directory/versatiles writers and re-opened with the real readers: advertised pyramid vs model and vs the exact per-level bounding box (equality; containment for versatiles), lookups of all stored tiles and over every advertised box grown by 2; pipelines: 2-4 sources (memory and containers) under random pipelines (filters, overlay, merge, update) built by the real PipelineFactory: coverage vs model, every returned tile inside the advertised pyramid. independent encoders (harness/src/indep_formats.rs): PMTiles with run lengths > 1 (Hilbert runs of 1..70 ids, runs ending at / crossing a zoom boundary), shared offsets, 1-3 directory levels; versatiles with padded/full block ranges, shuffled sparse block index; mbtiles (view/table, shuffled rows, zoom gaps); tar with ./-prefixed and prefix-field names - same oracle. non-trivial = more than one tile / pipeline with at least one operation".into();
+	out.notes.push("checklist: 1 thresholds - 256-block borders (shape_block_border), levels 0/1/30/31 incl. corners, mbtiles three-column sampling (shape_irregular), zoom-31 i32 arithmetic; 2 faults after open - n.a. (coverage is computed at open; loud failure of later lookups is C02/C12); 3 payload classes - 1 byte / duplicates / 1500-byte duplicates / unique (empty payloads: known finding of C04); 4 option interplay - pipelines with random filter/overlay/merge/update nesting; converter options are C06; 5 reuse - containers written onto an existing container, every reader streamed twice; 6 scheduling - n.a. (coverage is order-insensitive; streams compared as sets); 7 HTTP - n.a.; 8 extreme coordinates - corners of levels 0/1/2/30/31, single tiles, gaps; 9 independent encoders - PMTiles runs/leaf levels/shared offsets, padded versatiles blocks, mbtiles views, ./ tar; 10 two paths - advertised box vs lookups vs streams over the advertised boxes, pipelines: lookup vs stream vs coverage".into());
 	let dir = std::fs::canonicalize(&args.out).unwrap().join("c03files");
 	std::fs::create_dir_all(&dir).unwrap();
 	let rt = tokio::runtime::Builder::new_multi_thread().worker_threads(4).enable_all().build().unwrap();
